@@ -227,6 +227,24 @@ pub fn wal_ids(files: &[String]) -> Vec<Sx> {
     v
 }
 
+/// The directory of a table below tables/, written from the rule the storage layer documents
+/// (independently of the crate's sanitize_table_name): lower-case, keep [a-z0-9_.-], drop leading
+/// '-' / '.', at most 189 bytes; a name this changes gets "-<that>-<sha256 of the original name>".
+pub fn table_dir(t: &str) -> String {
+    use sha2::{Digest, Sha256};
+    let lower = t.to_lowercase();
+    let kept: String = lower.chars().filter(|c| c.is_ascii_alphanumeric() || *c == '_' || *c == '-' || *c == '.').collect();
+    let trimmed = kept.trim_start_matches(|c| c == '-' || c == '.');
+    let cut = if trimmed.len() > 189 { &trimmed[..189] } else { trimmed };
+    if cut == t {
+        cut.to_string()
+    } else {
+        let mut h = Sha256::new();
+        h.update(t.as_bytes());
+        format!("-{}-{}", cut, hex::encode(h.finalize()))
+    }
+}
+
 /// (table dir, partition id, key) for every file below tables/
 pub fn part_files(files: &[String]) -> Vec<(String, Option<u64>, String)> {
     let mut v = vec![];
@@ -286,8 +304,9 @@ pub fn canonical_obs(d: &Dump, spec: &[(String, Vec<String>)]) -> Sx {
             meta.sort_by_key(|p| (p.off, p.id));
             let mut fids: BTreeSet<u64> = BTreeSet::new();
             let mut odd: Vec<Sx> = vec![];
+            let tdir = table_dir(&t.name);
             for (dir, id, file) in &pfiles {
-                if *dir == t.name {
+                if *dir == tdir {
                     match id {
                         Some(i) => {
                             fids.insert(*i);
@@ -326,9 +345,10 @@ pub fn canonical_obs(d: &Dump, spec: &[(String, Vec<String>)]) -> Sx {
     layout.sort_by(|x, y| x.0.cmp(&y.0));
     // a table directory or catalogue entry of a table that is not in memory would be invisible above
     let known: BTreeSet<&str> = d.layout.iter().map(|t| t.name.as_str()).collect();
+    let known_dirs: BTreeSet<String> = d.layout.iter().map(|t| table_dir(&t.name)).collect();
     let mut strays: Vec<Sx> = vec![];
     for (dir, _, file) in &pfiles {
-        if !known.contains(dir.as_str()) {
+        if !known_dirs.contains(dir.as_str()) {
             strays.push(name_sx(&format!("{}/{}", dir, file)));
         }
     }
@@ -451,6 +471,8 @@ pub struct Runner {
     pub violations: Vec<Violation>,
     pub last: Option<Dump>,
     pub restarts: u32,
+    /// race steps in which both the parked ingestion and the start of the flush were observed
+    pub races: u32,
     /// catalogue tables that received a row since the last restart (replayed rows count)
     pub cat_touched: BTreeSet<String>,
     /// catalogue tables with rows that are not yet in a partition
@@ -489,6 +511,11 @@ impl Runner {
                         visit(b.items());
                     }
                 }
+                "race" => {
+                    for b in &o.items()[1..] {
+                        visit(b.items());
+                    }
+                }
                 _ => {}
             }
         }
@@ -507,6 +534,7 @@ impl Runner {
             violations: vec![],
             last: None,
             restarts: 0,
+            races: 0,
             cat_touched: BTreeSet::new(),
             cat_unflushed: BTreeSet::new(),
             flushes: 0,
@@ -914,7 +942,7 @@ impl Runner {
         }
         for p in &parts {
             for k in &p.keys {
-                expected.insert(format!("tables/{}/{:05}_{}.part", p.table, p.id, k));
+                expected.insert(format!("tables/{}/{:05}_{}.part", table_dir(&p.table), p.id, k));
             }
         }
         for id in cursor..d.mem.1 {
@@ -973,6 +1001,18 @@ impl Runner {
                     self.req(lst(vec![a("ingest"), b.clone()]), "ingest")?;
                 }
             }
+            "race" => {
+                // two clients and a forced flush lined up at the ingestion lock (child.rs: "race");
+                // the hook events tell in which order they took effect
+                for b in &op.items()[1..] {
+                    batches.push(b.clone());
+                }
+                let r = self.req(op.clone(), "race")?;
+                let lined_up = r.items().len() >= 3 && r.items()[1].atom() == "true" && r.items()[2].atom() == "true";
+                if lined_up {
+                    self.races += 1;
+                }
+            }
             "flush" => {
                 self.req(lst(vec![a("flush")]), "flush")?;
             }
@@ -998,7 +1038,7 @@ impl Runner {
             touches.push(self.note_batch(b.items()));
         }
         let (ev, d) = self.settle()?;
-        self.record_ops(&ev, &batches, &touches, kind == "flush");
+        self.record_ops(&ev, &batches, &touches, kind == "flush" || kind == "race");
         match kind.as_str() {
             "evict" => self.hops.push(lst(vec![a("evict")])),
             "restart" => self.hops.push(lst(vec![a("restart")])),
@@ -1098,7 +1138,10 @@ pub fn run_history(input: &Sx) -> Vec<Outcome> {
         nh -= 1;
     }
     let no = r.hops[..nh].iter().filter(|h| h.tag() == "observe").count().min(no);
-    let nontrivial = r.flushes > 0 || r.restarts > 0;
+    // a history with race steps counts only if at least one of them was actually lined up (the
+    // ingestion parked inside the lock and the flush thread seen starting)
+    let race_ops = ops.iter().filter(|o| o.tag() == "race").count();
+    let nontrivial = (r.flushes > 0 || r.restarts > 0) && (race_ops == 0 || r.races > 0);
     if no > 0 {
         outs.push(Outcome {
             model: Some("store_history".into()),
